@@ -262,3 +262,9 @@ package option
 //@   requires opt != nil
 //@   modifies opt.DefaultStr
 //@   ensures opt.DefaultStr == s && result == opt
+
+// User-supplied value completion callback: opaque, assumed not to touch the parser's state.
+//@ func type ValueCompletionsFn(target, partialCompletion)
+//@   props C17 C19
+//@   modifies
+//@ end
